@@ -604,10 +604,10 @@ func c12lRun(plan *C12LPlan) (res c12lResult) {
 		node.untrustedLock.Unlock()
 	}
 	// (1) the node still follows the trusted peer
-	if !waitFor(8*time.Second, func() bool {
+	if !waitFor(25*time.Second, func() bool {
 		return node.blocks.LastHeight() == finalBest.Height && *node.blocks.LastHash() == finalBest.Hash
 	}) {
-		return fail("C12/trusted-chain-not-followed", fmt.Sprintf("the trusted peer's best chain is at height %d, the node stayed at height %d for 8 s after the untrusted peers finished (peers: %s)", finalBest.Height, node.blocks.LastHeight(), describeC12L(plan)))
+		return fail("C12/trusted-chain-not-followed", fmt.Sprintf("the trusted peer's best chain is at height %d, the node stayed at height %d for 25 s after the untrusted peers finished (peers: %s)", finalBest.Height, node.blocks.LastHeight(), describeC12L(plan)))
 	}
 	// (2) the chain is the trusted peer's chain
 	for hgt, b := range finalBest.Path() {
@@ -701,7 +701,7 @@ func genC12L(t *rapid.T) *C12LPlan {
 	return p
 }
 
-const c12lRule = "live plans: real Run and real UntrustedNode.Run over loopback sockets; 1-3 scripted untrusted peers per plan (on the node's chain, on an alien chain, or never answering the header request) run generated scripts of inventory floods (up to 6 x 50 000 items), offered and pushed transactions only they know (half of them double spends of transactions the trusted peer announces and then mines), blocks carrying the header of a block the trusted peer is about to announce with a forged body, headers of a longer fork, address floods, garbage frames (bad checksum, bad magic, absurd length, random bytes, half a message then close, unparsable payload), stopping to read, closing; one plan in six is a two-peer back-pressure profile (announce shared txids and never deliver, stop reading, make the node queue hundreds of requests, show activity again after the 3 s request window); meanwhile the trusted peer mines 2-5 blocks; each batch runs in a child process; oracle: the node process survives, reaches the trusted peer's tip within 8 s after the scripts, holds exactly the trusted chain, delivers nothing that only an unverified peer supplied, and reports nothing only an untrusted peer supplied as safe or confirmed; non-trivial = an untrusted peer got as far as the header request; distinct by plan hash"
+const c12lRule = "live plans: real Run and real UntrustedNode.Run over loopback sockets; 1-3 scripted untrusted peers per plan (on the node's chain, on an alien chain, or never answering the header request) run generated scripts of inventory floods (up to 6 x 50 000 items), offered and pushed transactions only they know (half of them double spends of transactions the trusted peer announces and then mines), blocks carrying the header of a block the trusted peer is about to announce with a forged body, headers of a longer fork, address floods, garbage frames (bad checksum, bad magic, absurd length, random bytes, half a message then close, unparsable payload), stopping to read, closing; one plan in six is a two-peer back-pressure profile (announce shared txids and never deliver, stop reading, make the node queue hundreds of requests, show activity again after the 3 s request window); meanwhile the trusted peer mines 2-5 blocks; each batch runs in a child process; oracle: the node process survives, reaches the trusted peer's tip within 25 s after the scripts, holds exactly the trusted chain, delivers nothing that only an unverified peer supplied, and reports nothing only an untrusted peer supplied as safe or confirmed; non-trivial = an untrusted peer got as far as the header request; distinct by plan hash"
 
 func c12lNontrivial(f map[string]bool) bool { return f["untrusted-handshake-reached"] }
 
@@ -746,9 +746,9 @@ func c12lChild(plans []*C12LPlan) (results []c12lResult, died bool, stderrTail s
 	in, out := dir+"/in.json", dir+"/out.json"
 	b, _ := json.Marshal(plans)
 	_ = os.WriteFile(in, b, 0o644)
-	ctx, cancel := context.WithTimeout(context.Background(), 150*time.Second)
+	ctx, cancel := context.WithTimeout(context.Background(), 240*time.Second)
 	defer cancel()
-	cmd := exec.CommandContext(ctx, os.Args[0], "-test.run", "^TestC12LiveChild$", "-test.count=1", "-test.timeout=140s")
+	cmd := exec.CommandContext(ctx, os.Args[0], "-test.run", "^TestC12LiveChild$", "-test.count=1", "-test.timeout=230s")
 	cmd.Env = append(os.Environ(), "VERIF_C12L_IN="+in, "VERIF_C12L_OUT="+out, "VERIF_OUT=")
 	var errBuf bytes.Buffer
 	cmd.Stderr = &errBuf
